@@ -96,6 +96,10 @@ def model_orders(n, w):
 
 # ------------------------------------------------------------------------------------------------
 
+class HarnessError(Exception):
+    pass
+
+
 class VirtualPool:
     """Deterministic Pool replacement; ``VirtualPool.order`` must be set to the completion order to enact."""
     order = None
@@ -128,7 +132,7 @@ class VirtualPool:
         n = len(tasks)
         order = list(VirtualPool.order) if VirtualPool.order is not None else list(range(n))
         if sorted(order) != list(range(n)):
-            raise RuntimeError('VirtualPool: schedule %s does not fit %d tasks' % (order, n))
+            raise HarnessError('VirtualPool: schedule %s does not fit %d tasks' % (order, n))
         results = {}
         for t in order:
             f, x = pickle.loads(tasks[t])
